@@ -4,8 +4,12 @@ C19 — neural bandits keep an exact inverse of their regularised Gram matrix.
 Correspondence: real NeuralUCB / NeuralTS agents with tiny networks (output layer <= 12 parameters, a
 few "grow" cases up to 25) are driven through random histories of
     act (get_action on a context matrix, optional mask) | learn | mutate (Mutations.mutation with one
-    kind at probability 1: none / architecture / parameters / activation / rl_hp) | clone |
+    kind at probability 1: none / architecture / parameters / activation / rl_hp) | clone | switch |
     reload (save_checkpoint + load / load_checkpoint into the same / into a fresh agent).
+A `clone` keeps the parent alive beside the copy (up to 4 live agents; `switch k` selects who acts next);
+parent and copies decide alternately, each with its own recomputed features, its own Gram matrix in the
+oracle and its own slot in the model (`bandit fork` copies history and matrix by value, `bandit sel i`).
+After EVERY op the checks below run for EVERY live agent, not only for the one that acted.
 Before every `get_action` the harness recomputes the gradient feature of every arm exactly as the code
 does (autograd on the same network, w.r.t. the parameters of the *current* output layer, divided by
 sqrt(out_features)), sends the chosen one as exact dyadics to `Model/Bandit.lean` and compares after
@@ -182,19 +186,34 @@ def oracle_state(tr: Trace, agent, Z64, where: str):
             tr.problems.append(f"{where}: sigma_inv @ (Z0 + sum g g') != I (max residual {resid:.3g} > {bound:.3g})")
 
 
+MAX_LIVE = 4
+
+
+def shares_storage(a: torch.Tensor, b: torch.Tensor) -> bool:
+    try:
+        return a.untyped_storage().data_ptr() == b.untyped_storage().data_ptr()
+    except Exception:       # noqa: BLE001
+        return a.data_ptr() == b.data_ptr()
+
+
 def run_impl(case, fault=None) -> Trace:
-    """drive the real agent through the case; collect model op lines, expected answers, oracle problems"""
+    """drive the real agents through the case; collect model op lines, expected answers, oracle problems.
+
+    `live` is the list of agents that are alive: the constructed one and every clone made so far (a
+    `clone` op keeps the parent alive and selects the copy; `switch k` selects live agent k mod len).
+    Each live agent has its own Gram matrix in the oracle and its own slot in the model; after EVERY op
+    the state of EVERY live agent is checked, so that a decision of one agent leaking into another
+    one's matrix shows on the agent that did not act."""
     import agents
     tr = Trace()
     algo, lamb = case["algo"], float(case["lamb"])
     lamb32 = float(np.float32(lamb))
-    agent = build(case, case["seed"])
+    live = [{"agent": build(case, case["seed"]), "Z": None}]
+    cur = 0
     tmpdir = None
-    Z64 = None
 
-    def start_history(S):
+    def start_history(slot, S):
         """an initialisation was observed on the implementation: classify it, restart the Gram matrix"""
-        nonlocal Z64
         kind = init_kind(S, lamb32)
         n = S.shape[0]
         if kind in ("paper", "code"):
@@ -202,29 +221,41 @@ def run_impl(case, fault=None) -> Trace:
                 tr.findings[F_LAMBDA] = (f"{algo}(lamb={lamb}): sigma_inv after init_params = {float(S[0, 0]):g}*I, "
                                          f"the inverse of lamb*I is {1.0 / lamb32:g}*I")
             z = (1.0 / lamb32) if kind == "code" else lamb32
-            Z64 = z * np.eye(n)
+            slot["Z"] = z * np.eye(n)
         else:
             tr.problems.append(f"sigma_inv after initialisation is neither I/lamb nor lamb*I (lamb={lamb}): "
                                f"diag[0]={float(S[0, 0]):g}")
-            Z64 = None
+            slot["Z"] = None
         return kind
 
-    def after(where: str, compare_matrix=True):
-        S = agent.sigma_inv.detach()
-        layer = live_layer(agent)
-        sq = 1 if (S.dim() == 2 and tuple(S.shape) == (int(agent.numel), int(agent.numel))) else 0
-        tr.add("bandit sizes", ("eq", f"{layer_numel(layer)} {int(agent.numel)} {int(S.shape[0])} {sq}", where))
-        if compare_matrix:
-            tr.add(f"bandit fix {FIX_BITS}", ("mat", S.double().numpy().copy(), where))
-        oracle_state(tr, agent, Z64, where)
+    def observe(i: int, where: str):
+        ag = live[i]["agent"]
+        S = ag.sigma_inv.detach()
+        layer = live_layer(ag)
+        sq = 1 if (S.dim() == 2 and tuple(S.shape) == (int(ag.numel), int(ag.numel))) else 0
+        tr.add("bandit sizes", ("eq", f"{layer_numel(layer)} {int(ag.numel)} {int(S.shape[0])} {sq}", where))
+        tr.add(f"bandit fix {FIX_BITS}", ("mat", S.double().numpy().copy(), where))
+        oracle_state(tr, ag, live[i]["Z"], where)
+
+    def after(where: str):
+        observe(cur, where)
+        if len(live) > 1:                   # every other live agent must be exactly where it was
+            for i in range(len(live)):
+                if i != cur:
+                    w = f"{where} / bystander agent {i}"
+                    tr.add(f"bandit sel {i}", ("eq", "ok", w))
+                    observe(i, w)
+            tr.add(f"bandit sel {cur}", ("eq", "ok", where))
 
     try:
-        kind = start_history(agent.sigma_inv.detach())
+        kind = start_history(live[0], live[0]["agent"].sigma_inv.detach())
         tr.sem = kind if kind in ("paper", "code") else "paper"
-        tr.add(f"bandit new {tr.sem} {frac(lamb32)} {layer_numel(live_layer(agent))}", ("eq", "ok", "new"))
+        tr.add(f"bandit new {tr.sem} {frac(lamb32)} {layer_numel(live_layer(live[0]['agent']))}", ("eq", "ok", "new"))
         after("after construction")
         for oi, op in enumerate(case["ops"]):
-            where = f"op {oi} {op[0]}"
+            where = f"op {oi} {op[0]}" + (f" (agent {cur})" if len(live) > 1 else "")
+            slot = live[cur]
+            agent = slot["agent"]
             if op[0] == "act":
                 ctx = make_context(case, op[1])
                 mask = None if op[2] is None else np.array(op[2])
@@ -261,9 +292,11 @@ def run_impl(case, fault=None) -> Trace:
                     tr.tags.append("act-raised")
                     break
                 tr.updates += 1
-                if Z64 is not None and Z64.shape[0] == g64.shape[1]:
-                    Z64 = Z64 + np.outer(g64[a], g64[a])
+                if slot["Z"] is not None and slot["Z"].shape[0] == g64.shape[1]:
+                    slot["Z"] = slot["Z"] + np.outer(g64[a], g64[a])
                 tr.tags.append("act-masked" if mask is not None else "act")
+                if len(live) > 1:
+                    tr.tags.append("act-beside-clone")
                 after(where)
             elif op[0] == "learn":
                 agents.learn_once(agent, algo, "vector", seed=op[1])
@@ -276,6 +309,7 @@ def run_impl(case, fault=None) -> Trace:
                 before = layer_numel(live_layer(agent))
                 agents.seed_all(op[2])
                 agent = mutations(op[1], op[2]).mutation([agent])[0]
+                slot["agent"] = agent
                 P = layer_numel(live_layer(agent))
                 tr.add(f"bandit mutate {P}", ("eq", "ok", where))
                 tr.tags.append(f"mut-{op[1]}")
@@ -284,17 +318,28 @@ def run_impl(case, fault=None) -> Trace:
                     tr.tags.append("output-layer-resized")
                 S = agent.sigma_inv.detach()
                 if init_kind(S, lamb32) in ("paper", "code"):
-                    start_history(S)
+                    start_history(slot, S)
                     tr.tags.append("reinitialised")
                 after(where)
             elif op[0] == "clone":
-                parent = agent
-                agent = parent.clone()
-                if agent.sigma_inv is parent.sigma_inv:
-                    tr.problems.append(f"{where}: the clone shares its sigma_inv tensor with the parent")
-                tr.add("bandit clone", ("eq", "ok", where))
+                child = agent.clone()
+                if shares_storage(child.sigma_inv, agent.sigma_inv):
+                    tr.problems.append(f"{where}: the clone's sigma_inv shares its memory with the parent's")
+                if len(live) >= MAX_LIVE:            # keep the session small: the copy replaces its parent
+                    slot["agent"] = child
+                    tr.add("bandit clone", ("eq", "ok", where))
+                else:
+                    live.append({"agent": child, "Z": None if slot["Z"] is None else slot["Z"].copy()})
+                    tr.add("bandit fork", ("eq", str(len(live) - 1), where))
+                    cur = len(live) - 1
                 tr.tags.append("clone")
                 after(where)
+            elif op[0] == "switch":
+                new = int(op[1]) % len(live)
+                if new != cur:
+                    cur = new
+                    tr.add(f"bandit sel {cur}", ("eq", "ok", where))
+                    tr.tags.append("switch")
             elif op[0] == "reload":
                 if tmpdir is None:
                     tmpdir = tempfile.mkdtemp(prefix="verif_c19_")
@@ -308,6 +353,7 @@ def run_impl(case, fault=None) -> Trace:
                     fresh = build(case, case["seed"] + 7)
                     fresh.load_checkpoint(path)
                     agent = fresh
+                slot["agent"] = agent
                 os.remove(path)
                 if hasattr(agent, "exp_layer") and agent.exp_layer is not live_layer(agent):
                     try:                            # what the stale reference does to the next decision
@@ -325,8 +371,11 @@ def run_impl(case, fault=None) -> Trace:
                 after(where)
             else:
                 raise InfraError(f"unknown op {op}")
-        tr.add("bandit check", ("eq", "1", "model self-check: gram * sigma_inv = I exactly"))
-        tr.add("bandit symm", ("eq", "1", "model self-check: sigma_inv exactly symmetric"))
+        for i in range(len(live)):
+            if len(live) > 1:
+                tr.add(f"bandit sel {i}", ("eq", "ok", "final"))
+            tr.add("bandit check", ("eq", "1", f"model self-check (agent {i}): gram * sigma_inv = I exactly"))
+            tr.add("bandit symm", ("eq", "1", f"model self-check (agent {i}): sigma_inv exactly symmetric"))
     except InfraError:
         raise
     except Exception as e:                # noqa: BLE001 - a legal history made the implementation raise
@@ -428,6 +477,7 @@ def gen_case(rng: random.Random, tier: str, grow: bool = False):
     if long_history:
         n_ops = 36
     acts = 0
+    clones = 0
     for _ in range(n_ops):
         r = rng.random()
         if (r < p_act or not ops) and acts < 30:
@@ -444,7 +494,18 @@ def gen_case(rng: random.Random, tier: str, grow: bool = False):
             kind = "arch" if (grow or rng.random() < 0.45) else rng.choice(MUT_KINDS)
             ops.append(["mutate", kind, rng.randrange(1 << 30)])
         elif r < p_clone:
-            ops.append(["clone"])
+            if clones < MAX_LIVE - 1 and not grow:
+                # parent and copy both stay alive and decide alternately, with no mutation in between
+                clones += 1
+                ops.append(["clone"])
+                for _ in range(rng.randint(2, 4)):
+                    ops.append(["act", rng.randrange(1 << 30), None])
+                    ops.append(["switch", rng.randrange(8)])
+                    acts += 1
+            else:
+                ops.append(["clone"])
+        elif r < p_clone + 0.03 and clones:
+            ops.append(["switch", rng.randrange(8)])
         else:
             ops.append(["reload", rng.choice(["load", "ckpt_self", "ckpt_fresh"])])
     if grow:
@@ -514,7 +575,7 @@ def run(chk: Check) -> None:
     n_cases = 36 if chk.tier == "quick" else 420
     n_grow = 2 if chk.tier == "quick" else 24
     chk.rule = ("random histories (act with/without mask | learn | Mutations.mutation of each of the five kinds | "
-                "clone | save+load three ways) on real NeuralUCB/NeuralTS agents: context dim 2-4, 2-4 arms, "
+                "clone with parent and copies kept alive and deciding alternately | save+load three ways) on real NeuralUCB/NeuralTS agents: context dim 2-4, 2-4 arms, "
                 "BanditEnv-style block contexts or dense ones, lamb in {1,.5,2,.25,4,1.5,.1,3.7}, output layer "
                 "3-12 parameters (grow cases: 9 -> 25); distinct = distinct (configuration, op list); "
                 "non-trivial = at least two Sherman-Morrison updates and one learn/mutate/clone/reload in between")
@@ -594,8 +655,9 @@ def faulty_get_action(mode: str):
 
 
 def selftest(chk: Check) -> None:
-    """the suite must notice: update with the wrong sign; denominator without the 1 +; sigma_inv not
-    re-created after an architecture mutation that resized the output layer"""
+    """the suite must notice: update with the wrong sign; denominator without the 1 +; a clone whose
+    sigma_inv aliases the parent's; sigma_inv not re-created after an architecture mutation that
+    resized the output layer"""
     import agents
     base = {"lamb": 1.0, "gamma": 1.0, "ctx_dim": 3, "arms": 3, "ctx_kind": "dense", "head": [7, 3],
             "layer_norm": True, "activation": "ReLU", "seed": 11}
@@ -616,6 +678,28 @@ def selftest(chk: Check) -> None:
                 raise InfraError(f"C19 self-test: seeded fault '{mode}' in {algo}.get_action not noticed "
                                  f"(oracle: {bool(tr.problems)}, correspondence: {bool(diffs)})")
             chk.notes.append(f"self-test: {algo} update fault '{mode}' detected by oracle and correspondence")
+        # clone whose matrix is a view of the parent's: decisions of one leak into the other
+        orig_clone = cls.clone
+
+        def aliasing_clone(self, *a, _orig=orig_clone, **k):
+            c = _orig(self, *a, **k)
+            c.sigma_inv = self.sigma_inv.detach()
+            return c
+        ccase = dict(base, algo=algo, ops=[["act", 1, None], ["clone"], ["act", 2, None], ["switch", 0],
+                                           ["act", 3, None], ["switch", 1], ["act", 4, None]])
+        tr, diffs = one_case(chk, ccase)
+        if tr.problems or diffs:
+            raise InfraError(f"C19 self-test: the unpatched {algo} fails beside its clone: {(tr.problems or diffs)[0]}")
+        cls.clone = aliasing_clone
+        try:
+            tr, diffs = one_case(chk, ccase)
+        finally:
+            cls.clone = orig_clone
+        behavioural = [p for p in tr.problems if "shares its memory" not in p]
+        if not behavioural or not diffs:
+            raise InfraError(f"C19 self-test: clone sharing sigma_inv with its parent in {algo} not noticed on the "
+                             f"agents' matrices (oracle: {bool(behavioural)}, correspondence: {bool(diffs)})")
+        chk.notes.append(f"self-test: {algo} clone aliasing the parent's sigma_inv detected on the bystander's matrix")
         # a mutation seed that resizes the output layer under the unpatched code
         seed = None
         for s in range(60):
